@@ -41,7 +41,7 @@ Fixpoint hrun (l : list hstmt) (s : hst) : hres :=
       | HAbortC c => hrun t (if hcond_holds c s then mkh false (h_d s) (h_err s) (h_alloc s) (h_warn s) else s)
       | HAbortD c => hrun t (if hcond_holds c s then mkh (h_c s) false (h_err s) (h_alloc s) (h_warn s) else s)
       | HWarnRet => hrun t (if h_warn s then mkh (h_c s) (h_d s) true (h_alloc s) (h_warn s) else s)
-      | HTermDest _ | HFree _ _ | HDestroyTmp _ | HFclose _ | HOther _ _ | HRestoreMarkerMethods _ => hrun t s
+      | HTermDest _ | HFree _ _ | HDestroyTmp _ | HFclose _ | HOther _ _ | HRestoreMarkerMethods _ | HRestoreStartInputPass _ => hrun t s
       end
   end.
 
